@@ -95,6 +95,7 @@ class SimKernel(object):
         self.log_calls = False
         self.frozen = False           # settle: no spontaneous events
         self.open_files = []
+        self.spawn_cost = None
 
     # -- time / events ---------------------------------------------------
     def now(self):
@@ -179,6 +180,13 @@ class SimKernel(object):
                       if p.kind == 'worker' and p.state == 'running' and
                       (owner is None or p.owner == owner))
 
+    def effective_live(self, owner=None):
+        """Running workers that have no SIGKILL on its way (a process
+        that was sent SIGKILL dies within the kill latency)."""
+        killed = set(e["pid"] for e in self.signal_log
+                     if e["sig"] == 9 and e["delivered"])
+        return [p for p in self.live_workers(owner) if p not in killed]
+
     def zombies(self):
         return sorted(p.pid for p in self.procs.values()
                       if p.state == 'zombie' and p.ppid == DAEMON_PID)
@@ -260,6 +268,8 @@ class SimKernel(object):
             raise OSError(errno.ENOENT, "simulated exec failure")
         pid = self.add_proc(DAEMON_PID, beh, 'worker', rec, owner)
         rec["pid"] = pid
+        if self.spawn_cost is not None:
+            self.spawn_cost()      # fork+exec takes (a little) time
         if self.spawn_observer is not None:
             self.spawn_observer(rec)
         self.spawn_log.append(rec)
